@@ -124,6 +124,23 @@ def run(scn, keep_log=False):
                     for fr in frames:
                         k.log('rx', fr)
                         feed(fr)
+            elif e == 'rx':
+                # several frames (genuine replies, unsolicited, duplicates) in one stream segment,
+                # optionally cut into pieces: one dataReceived call per piece
+                blob = b''
+                for part in ev['parts']:
+                    if part['kind'] == 'reply' and part['id'] in reqs:
+                        blob += frame_for(part['id'])
+                    elif part['kind'] == 'dup' and part['id'] in reqs:
+                        blob += frame_for(part['id'])
+                    elif part['kind'] == 'unsolicited':
+                        blob += codec.frame(framing, 1, codec.rsp_regs(3, [0x7E01, 0x7E02]), tid=part.get('tid', 0))
+                cuts = sorted(set(c for c in (ev.get('cuts') or []) if 0 < c < len(blob)))
+                pos = 0
+                for c in cuts + [len(blob)]:
+                    k.log('rx', blob[pos:c])
+                    feed(blob[pos:c])
+                    pos = c
             elif e == 'unsolicited':
                 fr = codec.frame(framing, 1, codec.rsp_regs(3, [0x7E01, 0x7E02]), tid=ev.get('tid', 0))
                 k.log('rx-unsolicited', fr)
